@@ -643,9 +643,13 @@ def projection(
          Requested projection operator.
     """
     dtype = dtype or settings.core["default_dtype"] or _data.CSR
-    return (
-        basis(dimensions, n, offset=offset, dtype=dtype) @
-        basis(dimensions, m, offset=offset, dtype=dtype).dag()
+    ket = basis(dimensions, n, offset=offset, dtype=dtype)
+    bra = basis(dimensions, m, offset=offset, dtype=dtype).dag()
+    # Not `ket @ bra`: in a 1-dimensional space that product is a plain number.
+    return Qobj(
+        _data.matmul(ket.data, bra.data),
+        dims=[ket.dims[0], bra.dims[1]],
+        copy=False,
     ).to(dtype)
 
 
